@@ -1,5 +1,26 @@
 //! child-process modes (work that may abort, hang, or must run in a distinct process)
-pub fn main(mode: &str, _input: &str, _output: &str) -> ! {
-    eprintln!("unknown child mode {}", mode);
-    std::process::exit(2)
+use serde_json::Value;
+
+pub fn main(mode: &str, input: &str, output: &str) -> ! {
+    crate::util::install_panic_hook();
+    let inp: Value = match std::fs::read_to_string(input).ok().and_then(|s| serde_json::from_str(&s).ok()) {
+        Some(v) => v,
+        None => {
+            eprintln!("child: cannot read {}", input);
+            std::process::exit(2)
+        }
+    };
+    let out: Value = match mode {
+        "c12" => crate::props::c12::child(&inp),
+        "c18" => crate::props::c18::child(&inp),
+        "c14mle" => crate::props::c14::child(&inp),
+        _ => {
+            eprintln!("unknown child mode {}", mode);
+            std::process::exit(2)
+        }
+    };
+    if std::fs::write(output, serde_json::to_string(&out).unwrap()).is_err() {
+        std::process::exit(2);
+    }
+    std::process::exit(0)
 }
